@@ -1,5 +1,6 @@
 import Mdsort.Proofs.Inspect
 import Mdsort.Proofs.InspectTrue
+import Mdsort.Proofs.WorldDryF21
 
 /-!
 # C06 - dry run predicts the real run and its explanations are true
@@ -120,5 +121,79 @@ example : Proofs.IsLineAt [97, 98, 10, 32, 32, 99, 100, 10, 101, 102] 3 [32, 32,
 /-- An unset group and an empty group are skipped, the others are printed in order. -/
 example : Proofs.printed [{ str := [], off := none }, { str := [], off := some (3, 3) }, { str := [98], off := some (1, 2) },
     { str := [97, 98], off := some (0, 2) }] = [(1, 2), (0, 2)] := by decide
+
+/-! ## the dry run predicts the real run, end to end (maildir mode)
+
+`C06_same_plan` is about one evaluation.  Lifted through interpolation (`Proofs.dry_lines_eq`: the `->`
+lines of a file are the same with and without `-d`) and through the walk (Proofs/WorldExit*.lean, the
+invariant of `C01_main_exit0_partial`):
+
+* `Proofs.exit0_lines env orc e D n c`: the `-> destination` lines logged for the file `n` of `D` (content `c`)
+  under the rules `e`: `inspectLines env ml (D/n)` - one line per action entry of `ml`, the entries
+  `matches_exec` iterates over (`C06_lines_are_actions`) - when the verdict is an action list `ml`, none otherwise;
+* `Proofs.exit0_refDirs C dirs`: the reference log - the directories in walking order (`exit0_dirsOf conf`), in each
+  the names in the order of its stream (sorted, as the shim presents them), for each name the lines of its file. -/
+
+/-- **The dry run predicts the real run.**  Maildir mode, the fault-free plan, rules without discard, no
+message visited twice (`Proofs.exit0_Good`, see `C01_main_exit0_partial`): when both runs end with exit status
+0, the log of the dry run - the `-> destination` lines, in order - EQUALS the log of the real run, and both are
+the reference log.  With `C01_main_exit0_partial` (same hypotheses): the messages that have a line are exactly
+those whose verdict is an action list, each of them is where `finalDir` of that list says, every message
+without a line (no match) is bound as before with its content - the real run acted on exactly the messages
+the dry run lists, as listed. -/
+theorem C06_dry_predicts_real_partial (env : PEnv) (orc : EvalOracles) (confOk : Bool) (conf : List ConfBlock) (files : Files)
+    (input : Bytes) (w : World) (hm : env.stdinMode = false) (hsyn : env.syntaxOnly = false) (hdry : env.dryrun = false)
+    (hnd : ∀ b ∈ conf, Proofs.WholeNoDiscard env orc b.expr) (hreg : Proofs.WholeReg w files)
+    (hgood : Proofs.exit0_Good ⟨env, orc, Proofs.exit0_dirsOf conf, files, w⟩)
+    (hreal : (runPlan Plan.none (mainP env orc confOk conf files input) w 0 []).1.1 = 0)
+    (hdryrun : (runPlan Plan.none (mainP { env with dryrun := true } orc confOk conf files input) w 0 []).1.1 = 0) :
+    (runPlan Plan.none (mainP { env with dryrun := true } orc confOk conf files input) w 0 []).1.2.log =
+      (runPlan Plan.none (mainP env orc confOk conf files input) w 0 []).1.2.log ∧
+    (runPlan Plan.none (mainP env orc confOk conf files input) w 0 []).1.2.log =
+      Proofs.exit0_refDirs ⟨env, orc, Proofs.exit0_dirsOf conf, files, w⟩ (Proofs.exit0_dirsOf conf) :=
+  Proofs.dry_predicts_real env orc confOk conf files input w hm hsyn hdry hnd hreg hgood hreal hdryrun
+
+/-- Non-vacuity: the two-message example with `/y` present and `maildir "/m" { match all move "/y" }` - all
+hypotheses hold (both exit statuses evaluated); so the two logs are equal (two lines each). -/
+example : (runPlan Plan.none (mainP { Proofs.exEnv with dryrun := true } Proofs.wholeExOrc true Proofs.exit0_exConf
+      Proofs.wholeExFiles []) Proofs.dry_f21World2 0 []).1.2.log =
+    (runPlan Plan.none (mainP Proofs.exEnv Proofs.wholeExOrc true Proofs.exit0_exConf Proofs.wholeExFiles [])
+      Proofs.dry_f21World2 0 []).1.2.log :=
+  (C06_dry_predicts_real_partial Proofs.exEnv Proofs.wholeExOrc true Proofs.exit0_exConf Proofs.wholeExFiles []
+    Proofs.dry_f21World2 rfl rfl rfl Proofs.exit0_ex_nd Proofs.dry_f21_reg2 Proofs.dry_ex_good Proofs.dry_ex_runs.1
+    Proofs.dry_ex_runs.2.1).1
+
+/-- Per file: the lines do not depend on `-d` (any environment, oracle, rules, directory, name, content). -/
+theorem C06_lines_same (env : PEnv) (orc : EvalOracles) (expr : Expr) (D n c : Bytes) (b1 b2 : Bool) :
+    Proofs.exit0_lines { env with dryrun := b1 } orc expr D n c = Proofs.exit0_lines { env with dryrun := b2 } orc expr D n c :=
+  Proofs.dry_lines_eq env orc expr D n c b1 b2
+
+/-- The general statement - the same without the hypothesis that no message is visited twice - as a named
+proposition.  It is FALSE (known finding F21, `C06_dry_predicts_real_false`). -/
+def C06_dry_predicts_real : Prop :=
+  ∀ (env : PEnv) (orc : EvalOracles) (confOk : Bool) (conf : List ConfBlock) (files : Files) (input : Bytes) (w : World),
+    env.stdinMode = false → env.syntaxOnly = false → env.dryrun = false →
+    (∀ b ∈ conf, Proofs.WholeNoDiscard env orc b.expr) → Proofs.WholeReg w files →
+    (runPlan Plan.none (mainP env orc confOk conf files input) w 0 []).1.1 = 0 →
+    (runPlan Plan.none (mainP { env with dryrun := true } orc confOk conf files input) w 0 []).1.1 = 0 →
+    (runPlan Plan.none (mainP { env with dryrun := true } orc confOk conf files input) w 0 []).1.2.log =
+      (runPlan Plan.none (mainP env orc confOk conf files input) w 0 []).1.2.log
+
+/-- **Where F21 breaks it** (evaluated): `maildir "/m" { match all flag "cur" }` on the two-message example.
+`exit0_Good` fails in its clause `norev` and nowhere else: the rules send `/m/new/1.h` to `/m/cur`, which is
+walked next.  Both runs end with exit status 0; the dry run logs TWO lines (each message once), the real run
+FOUR - each message is found again in `/m/cur` and processed a second time. -/
+theorem C06_F21_witness :
+    (runPlan Plan.none (mainP Proofs.exEnv Proofs.wholeExOrc true Proofs.dry_f21Conf Proofs.wholeExFiles [])
+      Proofs.wholeExWorld 0 []).1.1 = 0 ∧
+    (runPlan Plan.none (mainP Proofs.exEnv Proofs.wholeExOrc true Proofs.dry_f21Conf Proofs.wholeExFiles [])
+      Proofs.wholeExWorld 0 []).1.2.log.length = 4 ∧
+    (runPlan Plan.none (mainP Proofs.dry_f21DryEnv Proofs.wholeExOrc true Proofs.dry_f21Conf Proofs.wholeExFiles [])
+      Proofs.wholeExWorld 0 []).1.1 = 0 ∧
+    (runPlan Plan.none (mainP Proofs.dry_f21DryEnv Proofs.wholeExOrc true Proofs.dry_f21Conf Proofs.wholeExFiles [])
+      Proofs.wholeExWorld 0 []).1.2.log.length = 2 :=
+  Proofs.dry_f21_witness
+
+theorem C06_dry_predicts_real_false : ¬ C06_dry_predicts_real := Proofs.dry_general_false
 
 end Mdsort.Props
